@@ -241,6 +241,26 @@ CLAIMED["C17"] = dict(
     technique="Lean 4 proof (rule violations are stuck in the semantics) + mutation testing of the type checker",
 )
 
+CLAIMED["C01"] = dict(
+    text="Lean theorem C01_core (Props/C01.lean): for the core fragment - Booleans and integers of EVERY width, literals, "
+         "variables, !, unary -, +, -, <, >, ==, !=, & | ^ on Booleans, && and ||, if/else, blocks with let - and for every "
+         "program body, environment of well-typed values and fuel: if the source semantics (Model/SrcSem.lean) return a value, "
+         "the bit-level evaluation Bit.bitStmts - which follows compile.rs construct by construct and uses the bit-list "
+         "operators of Model/Arith.lean - returns exactly the encoding of that value and no panic; if they fail it reports "
+         "exactly that failure (first failing operation). The proof rests on the all-width correctness of the adder, "
+         "subtractor, comparator, equality and negation circuits (Proofs/Arith*.lean, BitOps.lean). PARTIAL: the fragment "
+         "excludes casts, *, /, %, shifts, bitwise operators on integers, aggregates, match, loops, mutation and calls; for "
+         "those, and for the step from Bit.bitStmts to real gates, the property is explored: generated programs (the "
+         "generator builds the syntax tree itself) are compiled as SSA and register circuit with and without de-duplication "
+         "and compared with the Lean source semantics on 6 argument tuples each; programs of the fragment are additionally run "
+         "through Bit.bitStmts, which must agree with the real circuit bit for bit.",
+    design_ref="DESIGN.md §6 C01",
+    note="trusted: Lean kernel; Model/SrcSem.lean is the hand-written specification; Model/BitSem.lean is tied to compile.rs by "
+         "the correspondence on core-fragment programs, Model/Arith.lean to CircuitBuilder by C03/C04; eval() and the register "
+         "conversion by C16/C10",
+    technique="Lean 4 proof (compiler-model soundness for the core fragment) + differential testing for the whole language",
+)
+
 CLAIMED["C06"] = dict(
     text="(1) Kernel-checked obligation extracted_hashIterSites: the list of HashMap/HashSet iteration sites of /repo/src, REGENERATED "
          "from the source on every run, equals the audited list in which every site carries the reason why its order cannot reach "
